@@ -675,6 +675,21 @@ fn carrier_name(in_fopts: bool, len: usize) -> &'static str {
 }
 
 fn prepare(reg: Reg, front: Front, rng: &mut Prng) -> Option<Link> {
+    // fixed plans, half of the time: an OTAA device with a join bias whose retries are not used up
+    // (the bias keeps steering the data uplinks until the network sends a channel mask)
+    if reg.fixed() && rng.bool() {
+        let bias = Some((rng.range(1, 9) as u8, rng.range(2, 5) as usize));
+        let opts = DevOpts { rng_seed: Some(rng.next_u64()), bias, ..Default::default() };
+        let creds = default_creds(rng);
+        let mut dev: Dev = Dev::new(front, reg, creds.clone(), &opts);
+        let ja = lrv_core::refcodec::JoinAcceptDesc { join_nonce: rng.below(1 << 24) as u32, net_id: 1, dev_addr: rng.next_u32(), dl_settings: 0, rx_delay: 1, cf_list: None };
+        let w = lrv_core::refcodec::encode_join_accept(&creds.app_key, &ja);
+        if !matches!(dev.transact(Action::Join, &Script::rx1(w)), Resp::JoinSuccess) {
+            return None;
+        }
+        let (nk, ak, addr) = dev.session_keys()?;
+        return Some(Link { dev, net: Net { nwk: nk, app: ak, addr }, fdown: 0, up_min: 0 });
+    }
     let opts = DevOpts { rng_seed: Some(rng.next_u64()), ..Default::default() };
     let mut link: Link = Link::abp(front, reg, rng, &opts)?;
     // sometimes start from a non-default plan: extra channels
@@ -737,7 +752,29 @@ fn send_and_judge(link: &mut Link, reg: Reg, front: Front, cmds: &[Cmd], in_fopt
     if col.want_sample() {
         col.sample(json!({"region": reg.name(), "front": front.name(), "commands": format!("{:?}", cmds), "answers": hex(&answers)}));
     }
-    Some(judge(reg, front, cmds, carrier_name(in_fopts, bytes.len()), &s0, &s1, &answers, tag, col))
+    let j = judge(reg, front, cmds, carrier_name(in_fopts, bytes.len()), &s0, &s1, &answers, tag, col);
+    // "has taken effect": a fully accepted LinkADRReq is also what the very next uplink (the one
+    // that carries the answer) is sent with
+    if cmds.iter().any(|c| matches!(c, Cmd::LinkAdr { .. })) {
+        if let Ok(a) = parse_uplink_cmds(&answers) {
+            let last_linkadr = a.iter().filter(|(cid, _)| *cid == 0x03).last();
+            if let Some((_, st)) = last_linkadr {
+                if st.first().map(|b| b & 7 == 7).unwrap_or(false) {
+                    if let Some(Ev::Tx { sf, bw, freq, .. }) = t2.evs.iter().find(|e| matches!(e, Ev::Tx { .. })) {
+                        col.event("linkadr_effect_on_air_checked");
+                        if reg.lora_dr(s1.data_rate) != Some((*sf, *bw)) {
+                            col.violation(
+                                &format!("C08|ack-effect-differs|data-rate-on-air|{}|{}", reg.name(), if s0.region.join_bias.preferred_subband.is_some() { "join-bias" } else { "no-bias" }),
+                                "a fully acknowledged LinkADRReq is in force in the device's state, but the next uplink is not sent at that data rate",
+                                json!({"region": reg.name(), "front": front.name(), "commands": format!("{:?}", cmds), "answers": hex(&answers), "data_rate_in_force": s1.data_rate, "uplink": {"sf": sf, "bw": bw, "freq": freq}, "join_bias_before": format!("{:?}", s0.region.join_bias)}),
+                            );
+                        }
+                    }
+                }
+            }
+        }
+    }
+    Some(j)
 }
 
 fn one_downlink(reg: Reg, front: Front, cmds: &[Cmd], rng: &mut Prng, col: &mut Collector, tag: &str) {
